@@ -259,6 +259,9 @@ func (cs *ContractSet) parseContractFile(path, pkgPath string, trusted bool) err
 				cur.NoSafety = true
 			case "overflow":
 				cur.Overflow = append(cur.Overflow, strings.Fields(rest)...)
+				if len(cur.Overflow) == 0 {
+					cur.Overflow = []string{"all"}
+				}
 			case "unroll":
 				n, err := strconv.Atoi(rest)
 				if err != nil {
